@@ -4,7 +4,7 @@ From Gv Require Import lib.Bytes lib.Json lib.Gql lib.Exec
      C01.ProofsBase C01.ProofsFuel C01.ProofsSplit C01.ProofsSim C01.ProofsJoin C01.ProofsOverlap
      C01.ProofsTwoStep C01.ProofsViol C01.ProofsCtxBase C01.ProofsCtx C01.ProofsTwoStepWf C01.ProofsPlanAlg
      C01.ProofsPlan C01.ProofsPlanOk C01.ProofsDedup C01.ProofsListHop
-     C01.ProofsTvStatic C01.ProofsTvDefs C01.ProofsTvHidden C01.ProofsPlanGen C01.ProofsPlan2 C01.ProofsFuelSuff C01.ProofsSelEq C01.ProofsSelMerge C01.ProofsPlan3 C01.ProofsPlan3Keys C01.ProofsPlan3Fetch.
+     C01.ProofsTvStatic C01.ProofsTvDefs C01.ProofsTvHidden C01.ProofsPlanGen C01.ProofsPlan2 C01.ProofsFuelSuff C01.ProofsSelEq C01.ProofsSelMerge C01.ProofsNKeyDefs C01.ProofsNKeyExec C01.ProofsPlan3 C01.ProofsPlan3Keys C01.ProofsPlan3Fetch.
 Open Scope N_scope.
 
 (* ---- unfolding of the client's selection / the projection of a plan tree ---- *)
@@ -34,20 +34,30 @@ Proof.
   unfold sels_nospread, key_sels. apply forallb_forall. intros s Hs. apply in_map_iff in Hs.
   destruct Hs as (k & <- & _). reflexivity.
 Qed.
-Lemma keys_from_nospread t f : sels_nospread (keys_from t f) = true.
-Proof. unfold keys_from. destruct (filter _ f); [reflexivity|apply key_sels_nospread]. Qed.
+Lemma nsels_nospread kn : sels_nospread (nsels kn) = true.
+Proof.
+  unfold sels_nospread, nsels. apply forallb_forall. intros s Hs. apply in_map_iff in Hs. destruct Hs as (x & <- & _).
+  unfold nsel. rewrite nospread_field. unfold sels_nospread. apply forallb_forall. intros s0 Hs0. apply in_map_iff in Hs0.
+  destruct Hs0 as (i & <- & _). reflexivity.
+Qed.
+Lemma keys_from_nospread t fetches : sels_nospread (keys_from t fetches) = true.
+Proof.
+  unfold keys_from. destruct (filter _ fetches); [reflexivity|].
+  rewrite nospread_app, key_sels_nospread, nsels_nospread. reflexivity.
+Qed.
 
 Section NoSpread.
   Variables (sc : schema) (subs : list schema) (frags : list fragment) (vdsM : list vardef) (supM : list (bytes * json)).
   Variable kq : nat.
   Variable decls : list (name * list name).
   Variable rdecls : list rdecl.
+  Variable ndecls : list (name * (list name * nkspec)).
   Variable ab : bool.
 
   Lemma static_nospread : forall k,
-      (forall T pt, pt_static_b sc subs frags vdsM supM kq ab decls rdecls k T pt = true ->
+      (forall T pt, pt_static_b sc subs frags vdsM supM kq ab decls rdecls ndecls k T pt = true ->
                     sels_nospread (pt_proj pt) = true /\ sels_nospread (pt_client pt) = true) /\
-      (forall T it, item_static_b sc subs frags vdsM supM kq ab decls rdecls k T it = true ->
+      (forall T it, item_static_b sc subs frags vdsM supM kq ab decls rdecls ndecls k T it = true ->
                     sel_nospread (item_proj it) = true /\ sel_nospread (item_client it) = true).
   Proof.
     induction k as [|k [IHp IHi]]; [split; intros; discriminate|].
@@ -406,6 +416,7 @@ Section FLStep.
   Variable tn : bool.
   Variable decls : list (name * list name).
   Variable rdecls : list rdecl.
+  Variable ndecls : list (name * (list name * nkspec)).
   Variable ab : bool.
 
   Notation vars := (pvars vdsM supM).
@@ -450,7 +461,7 @@ Section FLStep.
   Proof. reflexivity. Qed.
 
   Lemma pt_static_obj k T pt :
-    pt_static_b sc subs [] vdsM supM kq ab decls rdecls k T pt = true ->
+    pt_static_b sc subs [] vdsM supM kq ab decls rdecls ndecls k T pt = true ->
     declared_obj sc T = true /\ bytes_eqb T s_Entity = false.
   Proof.
     destruct k as [|k]; [discriminate|]. destruct pt as [items fetches]. cbn [pt_static_b]. intros H.
@@ -461,8 +472,8 @@ Section FLStep.
   (* ---- one object value below a field whose type is the object type of the plan tree ---- *)
   Section Inner.
     Variables (k : nat) (T' : name) (sub : ptree).
-    Hypothesis HPS : PS_at U sc subs vdsM supM f2 kq tn decls rdecls ab k.
-    Hypothesis Hsub : pt_static_b sc subs [] vdsM supM kq ab decls rdecls k T' sub = true.
+    Hypothesis HPS : PS_at U sc subs vdsM supM f2 kq tn decls rdecls ndecls ab k.
+    Hypothesis Hsub : pt_static_b sc subs [] vdsM supM kq ab decls rdecls ndecls k T' sub = true.
     Hypothesis Hneed : (pt_need sc sub <= f2)%nat.
 
     Lemma item_step nn cargs it q1 q2 :
@@ -514,8 +525,8 @@ Section FLStep.
   Qed.
 
   Lemma FL_step k :
-    PS_at U sc subs vdsM supM f2 kq tn decls rdecls ab k ->
-    FL_at U sc subs vdsM supM f2 kq tn decls rdecls ab (S k).
+    PS_at U sc subs vdsM supM f2 kq tn decls rdecls ndecls ab k ->
+    FL_at U sc subs vdsM supM f2 kq tn decls rdecls ndecls ab (S k).
   Proof.
     intros HPS T e a n args sh T' sub p q Hst HeU HeT Hneed.
     cbn [item_static_b] in Hst.
@@ -524,7 +535,7 @@ Section FLStep.
     apply andb_true_iff in Hst. destruct Hst as [Hname Hfty]. apply negb_true_iff in Hname.
     destruct (is_leaf_kind sc T') as [[|]|] eqn:Elk; try discriminate. clear Hleaf.
     destruct (item_need_PDown a n args sh T' sub Hneed) as (Hb1 & Hb2 & Hb3).
-    destruct (proj1 (static_nospread sc subs [] vdsM supM kq decls rdecls ab k) T' sub Hsub) as [Hns1 Hns2].
+    destruct (proj1 (static_nospread sc subs [] vdsM supM kq decls rdecls ndecls ab k) T' sub Hsub) as [Hns1 Hns2].
     rewrite tr3_trG. unfold mex.
     apply (gen_field (lobj k T' sub) U sc vars f2 T e a n args sh T' (pt_proj sub) (pt_client sub) p q
                      Hname Hfty Elk Hns1 Hns2 Hb1 Hb2).
@@ -544,7 +555,7 @@ Section FLStep.
   Qed.
 
   Lemma pt_static_plain k T pt :
-    pt_static_b sc subs [] vdsM supM kq ab decls rdecls k T pt = true -> plain_sels (pt_proj pt) /\ plain_sels (pt_client pt).
+    pt_static_b sc subs [] vdsM supM kq ab decls rdecls ndecls k T pt = true -> plain_sels (pt_proj pt) /\ plain_sels (pt_client pt).
   Proof.
     destruct k as [|k]; [discriminate|]. destruct pt as [items fetches]. cbn [pt_static_b]. intros H.
     apply andb_true_iff in H. destruct H as [_ H]. rewrite forallb_forall in H.
@@ -558,7 +569,7 @@ Section FLStep.
     rewrite pt_proj_eq, pt_client_eq. split.
     - apply Forall_app. split.
       + apply Forall_forall. intros s0 Hs. apply in_map_iff in Hs. destruct Hs as (ti & <- & Hti). apply filter_In in Hti. apply (Hit ti (proj1 Hti)).
-      + unfold keys_from. destruct (filter _ fetches); [constructor|apply plain_key_sels].
+      + unfold keys_from. destruct (filter _ fetches); [constructor|apply Forall_app; split; [apply plain_key_sels|apply plain_nsels]].
     - apply Forall_forall. intros s0 Hs. apply in_map_iff in Hs. destruct Hs as (ti & <- & Hti). apply (Hit ti Hti).
   Qed.
 
@@ -576,7 +587,7 @@ Section FLStep.
 
   Section InnerAbs.
     Variables (k : nat) (T' : name) (csel rsel : list selection) (alts : list (name * bool * ptree)).
-    Hypothesis HPS : PS_at U sc subs vdsM supM f2 kq tn decls rdecls ab k.
+    Hypothesis HPS : PS_at U sc subs vdsM supM f2 kq tn decls rdecls ndecls ab k.
     Hypothesis HnE : bytes_eqb T' s_Entity = false.
     Hypothesis Hty : types_ok_b sc U = true.
     Hypothesis Halts :
@@ -587,7 +598,7 @@ Section FLStep.
                            flat_is (flatten sc [] vars (abs_fuel csel rsel) (td_name td) rsel)
                                    (if h then tn_sel :: pt_proj sub else pt_proj sub) &&
                            (if h then sels_top_nokey s_typename (pt_proj sub) else has_tn_sel (pt_proj sub)) &&
-                           pt_static_b sc subs [] vdsM supM kq ab decls rdecls k (td_name td) sub
+                           pt_static_b sc subs [] vdsM supM kq ab decls rdecls ndecls k (td_name td) sub
                          | None => false
                          end) (s_types sc) = true.
     Hypothesis Hneed : (alts_need sc csel rsel alts <= f2)%nat.
@@ -699,8 +710,8 @@ Section FLStep.
 
   Lemma FA_step k :
     (ab = true -> types_ok_b sc U = true) ->
-    PS_at U sc subs vdsM supM f2 kq tn decls rdecls ab k ->
-    FA_at U sc subs vdsM supM f2 kq tn decls rdecls ab (S k).
+    PS_at U sc subs vdsM supM f2 kq tn decls rdecls ndecls ab k ->
+    FA_at U sc subs vdsM supM f2 kq tn decls rdecls ndecls ab (S k).
   Proof.
     intros Hty HPS T e a n args sh T' csel rsel alts p q Hst HeU HeT Hneed.
     cbn [item_static_b] in Hst.
